@@ -1209,7 +1209,7 @@ PROPS = {
         undecided=[
             "compute_tree_boruvka main loop as a whole (unbounded): that the row invariant is maintained, termination, |tree| = basins - components, minimum weight",
             "the large-degree path (`size > m_max_low_degree` = 16: deferral, bucket clean-up, duplicate-edge removal with the min-id tie-break) needs a basin with >= 17 incident edge "
-            "end points: OUTSIDE every bound CBMC can unwind here; it is dead code in all bounded groups run with the in-class threshold; only the re-queue decision at its end is "
+            "end points: OUTSIDE every bound CBMC can unwind here; it is dead code in all bounded groups run with the in-class threshold; only the bucket step (a lightest parallel edge survives: boruvka.main.bucket.step) and the re-queue decision at its end are "
             "under contract (boruvka.main.requeue); the native driver replay/boruvka.cpp exercises it (about a third of its random graphs) but that is testing, not proof",
             "NOTED, NOT CLAIMED (native only, replay/boruvka.cpp BORUVKA_MODE=stale / dense; outside the documented domain of planar basin graphs): when every basin of a component keeps more than m_max_low_degree distinct live neighbours "
             "(e.g. complete graph on 18 basins) m_low_degrees is empty, the main loop stops, the tree is incomplete and m_large_degrees keeps stale entries that the next call uses as "
